@@ -142,3 +142,26 @@ func TestRegressionOneElementPointerArrayByValue(t *testing.T) {
 	}
 	roundTrip(t, api, &regOnePtrMap{M: map[int64]regOnePtr{0: {F: [1]*regInner{{A: "ab", B: 28}}}, 16: {F: [1]*regInner{{A: "", B: -2}}}}})
 }
+
+type RegEmbInner struct {
+	A uint8 `serix:""`
+}
+type regEmbPtrHolder struct {
+	*RegEmbInner `serix:""`
+	B            uint8 `serix:""`
+	C            uint8 `serix:""`
+}
+
+// Encode silently left out the fields of a nil embedded struct pointer; the bytes then failed to decode, or decoded with
+// the following fields shifted into the embedded struct. A value that has no encoding must be refused.
+func TestRegressionNilEmbeddedPointerIsRefused(t *testing.T) {
+	api := regAPI(t)
+	ctx := context.Background()
+	if b, err := api.Encode(ctx, &regEmbPtrHolder{B: 1, C: 2}); err == nil {
+		t.Fatalf("Encode accepted a nil embedded struct pointer and produced %x", b)
+	}
+	if j, err := api.JSONEncode(ctx, &regEmbPtrHolder{B: 1, C: 2}); err == nil {
+		t.Fatalf("JSONEncode accepted a nil embedded struct pointer and produced %s", j)
+	}
+	roundTrip(t, api, &regEmbPtrHolder{RegEmbInner: &RegEmbInner{A: 9}, B: 1, C: 2})
+}
